@@ -38,7 +38,7 @@ namespace AwsVerif.Threads
 @[simp] theorem freeWrapper_count (s : State) (k : Nat) : (freeWrapper s k).count = s.count := rfl
 @[simp] theorem freeWrapper_pending (s : State) (k : Nat) : (freeWrapper s k).pending = s.pending := rfl
 @[simp] theorem freeWrapper_lockOwner (s : State) (k : Nat) : (freeWrapper s k).lockOwner = s.lockOwner := rfl
-@[simp] theorem freeWrapper_wLive (s : State) (k : Nat) : (freeWrapper s k).wLive = s.wLive - 1 := rfl
+@[simp] theorem freeWrapper_wLive (s : State) (k : Nat) : (freeWrapper s k).wLive = s.wLive - k := rfl
 @[simp] theorem freeWrapper_cbLive (s : State) (k : Nat) : (freeWrapper s k).cbLive = s.cbLive := rfl
 @[simp] theorem freeWrapper_hstate (s : State) (k : Nat) : (freeWrapper s k).hstate = s.hstate := rfl
 @[simp] theorem freeWrapper_now (s : State) (k : Nat) : (freeWrapper s k).now = s.now := rfl
@@ -53,6 +53,12 @@ namespace AwsVerif.Threads
 @[simp] theorem exitStep_cbLive (s : State) (t : Nat) : (exitStep s t).cbLive = s.cbLive := rfl
 @[simp] theorem exitStep_hstate (s : State) (t : Nat) : (exitStep s t).hstate = s.hstate := rfl
 @[simp] theorem exitStep_now (s : State) (t : Nat) : (exitStep s t).now = s.now := rfl
+
+@[simp] theorem cont_misuse (s : State) (t : Nat) (me : Th) (c : List Instr) : (cont s t me c).misuse = s.misuse := rfl
+@[simp] theorem pushW_misuse (s : State) (e : WEv) : (pushW s e).misuse = s.misuse := rfl
+@[simp] theorem pushLog_misuse (s : State) (e : Ev) : (pushLog s e).misuse = s.misuse := rfl
+@[simp] theorem freeWrapper_misuse (s : State) (k : Nat) : (freeWrapper s k).misuse = s.misuse := rfl
+@[simp] theorem exitStep_misuse (s : State) (t : Nat) : (exitStep s t).misuse = s.misuse := rfl
 
 theorem upd_apply {α : Type} (f : Nat → α) (k j : Nat) (v : α) : upd f k v j = if j = k then v else f j := rfl
 
